@@ -564,7 +564,8 @@ def run_check(modname, pid, tier, meta):
             results.append(run_task(t))
     else:
         ctx = multiprocessing.get_context('fork')
-        budget = float(os.environ.get('VERIF_BUDGET_S', '0') or 0)
+        # a wall budget always applies (a solver call that ignores its timeout must not hang the check): exit 2 when exhausted
+        budget = float(os.environ.get('VERIF_BUDGET_S', '') or (1500 if tier == 'quick' else 7200))
         with ctx.Pool(nproc, maxtasksperchild=None) as pool:
             it = pool.imap_unordered(run_task, tasks, chunksize=1)
             while True:
